@@ -129,7 +129,7 @@ pub fn mut_step(d: &mut Driver, ch: &mut dyn Chooser, i: usize, full: bool) {
             }
         }
         5 => {
-            let n = match ch.choose(5) {
+            let n = match ch.choose(if ch.exhaustive() { 4 } else { 5 }) {
                 0 => 0,
                 1 => len.saturating_sub(1),
                 2 => len + 1,
